@@ -33,6 +33,9 @@ CHECKS["C13"] = dict(cat="proof", design="§3 C13",
 CHECKS["C06"] = dict(cat="proof", design="§3 C06, §1.5",
     text="All 36 series functions are verified in isolation from their own instruction lists: closed branch = exact function (formal identity), Taylor branch within 1e-12 of it on the whole Taylor cell (alternating-series enclosures of sin/cos/atan substituted at the box corners; univariate polynomial inequalities), value at 0 within 1e-12 of the limit, hence no jump at the switch; derivative (CasADi AD) defined on every branch for 0<|x|<=1 and at 0. Consumers (exp, log, Jacobians of every group): AD at exactly zero rotation evaluated exactly through the instruction list with symbolic translations - any zero denominator, negative sqrt or non-finite constant on the selected path is a violation.",
     note="trusted: enclosures by consecutive Maclaurin partial sums (|x|<=1), corner argument (affine or coordinate-wise monotone in sin/cos), limits table. NOT decided: IEEE rounding/cancellation of the closed branch near the switch (the 1e-9 double-precision clause is covered for truncation and switch jump only), denormal inputs, consumer-level AD on a neighbourhood of zero (thorough tier, SO(3)/SE(3) exp and Jacobians only). Poles '1/x^2', '(2-x cos x)/(2x^2)' and the squared odd key '(1-cos x)/x' are exempt at 0 (no consumer).")
+CHECKS["C18"] = dict(cat="proof", design="§3 C18",
+    text="Bezier.eval/deriv, bezier3/7_solve, bezier3/7_traj and bezier_multirotor executed symbolically for enumerated (degree, dimension, derivative order): eval = Bernstein polynomial and end points; deriv(m).eval = m-th CasADi-AD derivative of eval; solver outputs meet every boundary condition for symbolic T>0 (plus fixed-T instances to 1e-9 on |w|<=100), solver denominators non-zero; trajectory outputs are successive derivatives. One polynomial/rational identity per component.",
+    note="trusted: CasADi SX/AD/instruction API, encoder (validated per run), Bernstein form, z3. Real arithmetic. Bounds: degree <= 7 (quick) / 9 (thorough), dimension <= 3, derivative order <= 4 (quick) / n (thorough).")
 CHECKS["C04"] = dict(cat="proof", design="§3 C04",
     text="Ad/ad/bracket of every group/algebra executed symbolically; (Ad_X y)^ = M(X) y^ M(X^-1), Ad homomorphism and inverse, ad = bracket = matrix commutator, antisymmetry, Jacobi, block-diagonal direct-sum ad, and Ad_exp(x) = expm(ad_x) in closed form (Rodrigues / Barfoot quartic) are proved per entry; wrong shapes and crashes of offered operations are violations.",
     note="trusted: as C01 plus the closed forms of expm(ad) and the theorem Ad_{exp A} = expm(ad_A) (used for SE_2(3)/Euler where exp ends in from_Matrix). Operations raising NotImplementedError are out of scope as the property states.")
